@@ -5,6 +5,8 @@ completed, no fault pending) the protocol's view (list / numprocesses / stats / 
 the simulated kernel's process table for every watcher; every child ever spawned is either
 reported under exactly one watcher or `gone`; no zombie; no transient status.
 """
+import os
+
 from tornado import gen
 
 from vlib import simgen, simhist
@@ -67,7 +69,7 @@ def gen_spec(rnd):
         base = rnd.randint(1, 12)
         fail = list(range(base, base + rnd.choice([1, 2, 5, 7])))
     return {'kill_latency': rnd.choice([0.0, 0.0, 0.0005, 0.002]), 'watchers': ws, 'steps': steps,
-            'spawn_fail': fail}
+            'spawn_fail': fail, 'no_path': rnd.random() < .06}
 
 
 def plan(tier, seed):
@@ -133,6 +135,11 @@ def run_history(h, res, dry=False):
     w = simhist.new_world(h)
     out = {'n': 0}
     nv = len(res.viol)
+    saved_path = os.environ.get('PATH')
+    if h.get('no_path'):
+        # a daemon started with a stripped environment (env -i circusd ...)
+        os.environ.pop('PATH', None)
+        res.obs['histories_with_PATH_unset'] += 1
     try:
         w.run(lambda: _history(w, h, res, dry, out))
         for v in res.viol[nv:]:
@@ -141,6 +148,8 @@ def run_history(h, res, dry=False):
             res.inconclusive.append('containment breach')
     finally:
         w.close()
+        if saved_path is not None:
+            os.environ['PATH'] = saved_path
     return out['n']
 
 
